@@ -34,7 +34,8 @@ def tasks(tier):
     for n in (0, 1, 5, 9):
         ts.append(Task('verifHarness_C02_H', [n], UF))
     for n in ((1, 5, 6) if tier == 'quick' else (0, 1, 2, 5, 6, 9, 15, 19)):
-        ts.append(Task('verifHarness_C02_RS', [n], UF))
+        ts.append(Task('verifHarness_C02_RS', [n, 1], UF))
+        ts.append(Task('verifHarness_C02_RS', [n, 0], UF))
     return ts
 
 
@@ -49,7 +50,7 @@ def bounds(tier):
             'G_sequence': 'payload lengths %s; every header byte, id < 2^24, CRC_EXTRA and payload byte symbolic; crcstep uninterpreted' % gl,
             'R_gate': 'payload lengths %s + exact sizes of the 4 harness messages; both versions; every header/payload/checksum byte symbolic; transport delivering the frame whole or cut after 6 / 11 bytes' % rl,
             'H_header_damage': 'v2 frame with arbitrary 24-bit id, header bytes, checksum, payload of 0,1,5,9 bytes: decoded only if the wire id is a dialect id and the checksum is the spec value over the wire bytes',
-            'RS_keyed_reader': 'reader with a dialect and an InKey, signed v2 frame carrying the spec signature (SHA-256 uninterpreted), arbitrary key, header, timestamp, payload and carried checksum, payload lengths 1,5,6 (quick) / 0,1,2,5,6,9,15,19 (thorough): delivered iff the carried checksum is the spec value',
+            'RS_keyed_reader': 'reader with a dialect and an InKey, signed v2 frame carrying the spec signature (SHA-256 uninterpreted); also the same signed frame with an arbitrary signature at a reader with the dialect and NO key, arbitrary key, header, timestamp, payload and carried checksum, payload lengths 1,5,6 (quick) / 0,1,2,5,6,9,15,19 (thorough): delivered iff the carried checksum is the spec value',
             'dialect': 'harness dialect of 4 message shapes (scalars, string+scalar, extensions, enum array)'}
 
 
